@@ -348,6 +348,7 @@ class Machine:
                 s.drop_impls.setdefault(type_head(f.params[0][1]), []).append(n)
         s._resolve_cache = {}
         s._sat_cache = {}
+        s.solver_timeout_ms = 20000        # a query that does not finish is `unknown` = inconclusive, never a pass
         s.overflow_mode = 'panic'          # 'panic' (dev profile) | 'wrap' (release profile)
         s.task_mode = True                 # ignore preemption points
         s.record_queries = False
@@ -361,7 +362,7 @@ class Machine:
         r = s._sat_cache.get(key)
         if r is not None:
             s.stats.cache_hits += 1; return r[0]
-        sol = z3.Solver(); sol.add(*st.pc); sol.add(cond)
+        sol = z3.Solver(); sol.set('timeout', s.solver_timeout_ms); sol.add(*st.pc); sol.add(cond)
         t = time.time(); res = sol.check(); dt = time.time() - t
         s.stats.solver_s += dt; s.stats.queries += 1
         if res == z3.unknown: raise Unmodelled('solver returned unknown')
@@ -493,6 +494,15 @@ class Machine:
             if en in s.enums and m.group(2) in s.enums[en]: return mk_enum(en, m.group(2))
         r = s.env.const(s, c)
         if r is not None: return r
+        f = s.fns.get('const ' + c) or next((s.fns[n] for n in s.fns if n.startswith('const ') and n.endswith('::' + c.split('::')[-1]) and n.split('::')[-1] == c.split('::')[-1]), None)
+        if f is not None:
+            # a named constant: its body must be a single `_0 = const X; return`
+            bl = blocks_of(f)
+            if len(bl) == 1:
+                stmts, term = bl['bb0']
+                if term[0] == 'return' and len(stmts) >= 1 and stmts[-1][0] == 'assign' and stmts[-1][2][0] == 'use' and stmts[-1][2][1][0] == 'const':
+                    return s.const(stmts[-1][2][1][1])
+            raise Unmodelled('constant item with a non-trivial body: ' + c)
         return Opaque('const:' + c)
 
     def operand(s, st, fr, op):
